@@ -490,6 +490,7 @@ def c01(ctx):
     only = {("QuantileExt", "quantiles_axis_mut"), ("QuantileExt", "quantile_axis_mut"), ("Quantile1dExt", "quantile_mut"), ("Quantile1dExt", "quantiles_mut")}
     RG.rule_r6(ctx, prog, only=only)
     RR.rule_r26_ranges(ctx, prog)
+    RR.rule_c19_indexes(ctx, prog)
     # the neighbours looked up are the order statistics: bulk selection (proved, see C02) on the partition contract
     RSG.rule_r25_bulk_selection(ctx, prog)
     RSG.rule_r22_partition(ctx, prog)
